@@ -712,6 +712,9 @@ def xenv_cases():
         (sy, q1, sy, q1, (("a", ("Not", "b")),)),
         (sy, ("And", "b", ("ForAll", ("list", "c"), ("Or", "a", "c"))), sy, ("And", "a", ("ForAll", ("list", "a"), ("Or", "b", "a"))), (("a", "c"), ("b", ("Not", "a")))),
         (sy, q2, sy, q2, (("x", ("Plus", "y", ("Int", P(1)))),)),
+        (sy, ("And", "a", ("Or", "b", ("Not", "c"))), sy, ("Or", "c", ("And", "a", ("Not", "b"))), (("a", "b"),)),
+        (sy, ("Or", "a", "b"), sy, ("And", "a", ("Not", "a")), ()),
+        (sy, ("Implies", ("LT", "x", "y"), ("Or", "a", ("LT", "y", "z"))), sy, ("Iff", ("LT", "x", "y"), ("And", "a", ("Not", ("LT", "y", "x")))), (("x", "z"),)),
         (sy, ("ForAll", ("list", "x"), ("LT", ("Int", P(0)), "x")), sy, ("ForAll", ("list", "x"), ("LT", ("Int", P(0)), "x")), ()),
         (sy, ("And", "a", ("Exists", ("list", "y"), ("LT", "x", "z"))), sy, ("And", "a", ("Exists", ("list", "x"), ("LT", "x", "z"))), ()),
         (sy, ("Or", ("Exists", ("list", "y"), ("LT", "x", "y")), ("LT", "y", "z")), sy, q2, (("x", "z"), ("y", "x"))),
@@ -754,6 +757,7 @@ def _xenv_job(idx):
 
             def nodes_of(n):
                 return list(_nodes(w, n).values())
+            f1 = None
             if mode == "after":
                 with w.using(*A):
                     s1 = dict((k, w.symbol(k, v)) for k, v in sorted(sy1.items()))
@@ -778,6 +782,37 @@ def _xenv_job(idx):
                 sig.append(("substitute", ac_sig(w, r), sorted(set(id(x) in set(id(v) for v in A[1].attrs["formulae"].values()) for x in nodes_of(r)))))
             except AbsRaise as ex_:
                 sig.append(("substitute", "raises " + ex_.cls_name))
+            # B becomes the environment on top of the stack (as after reset_env() or inside `with Environment():`): the
+            # module-level procedures called without an environment work in B
+            def procs(f, env_pair):
+                out_ = []
+                if w.nsort(f) != BOOL:
+                    return out_
+                a_tab = set(id(v) for v in A[1].attrs["formulae"].values())
+                with w.using(*env_pair):
+                    for mod_, name in (("pysmt.rewritings", "cnf"), ("pysmt.rewritings", "cnf_as_set"), ("pysmt.rewritings", "nnf"),
+                                       ("pysmt.rewritings", "prenex_normal_form"), ("pysmt.rewritings", "aig"), ("pysmt.oracles", "get_logic")):
+                        try:
+                            r_ = it.call(it.module_global(w.repo.modules[mod_], name), [f])
+                            foreign = False
+                            if env_pair is B:
+                                items = []
+                                st_ = [r_]
+                                while st_:
+                                    v_ = st_.pop()
+                                    if w.is_node(v_):
+                                        items.append(v_)
+                                    elif isinstance(v_, (list, tuple, set, frozenset)):
+                                        st_.extend(v_)
+                                a_now = set(id(v) for v in A[1].attrs["formulae"].values())      # incl. nodes made during the call
+                                foreign = any(id(x) in a_now for n_ in items for x in nodes_of(n_))
+                            out_.append((name, ac_sig(w, r_), "foreign nodes" if foreign else ""))
+                        except AbsRaise as ex_:
+                            out_.append((name, "raises " + ex_.cls_name, ""))
+                return out_
+            if mode == "after":
+                procs(f1, A)
+            sig.append(("procedures with the second environment on top", procs(f2, B)))
             res[mode] = sorted(sig, key=repr)
         return res
     try:
